@@ -10,6 +10,7 @@ import Driver.CmdSize
 import Driver.CmdRun
 import Driver.CmdAnalyse
 import Driver.CmdIso
+import Driver.CmdPersist
 /-! Command table of the replay driver (model instantiated at `Float`). -/
 namespace Driver
 open RQ.F
@@ -71,6 +72,9 @@ def dispatch (toks : List String) : String :=
   | some r => r
   | none =>
   match cmdIso toks with
+  | some r => r
+  | none =>
+  match cmdPersist toks with
   | some r => r
   | none => "ERR unknown-command"
 
